@@ -46,6 +46,8 @@ struct Case {
     sec: Sec,
     incl_opt: bool,
     tag: String,
+    /// before the walk: clear the pointer flag (bytes are pointer-free) and memoise the question
+    prep: bool,
 }
 
 fn sub(owner: &Name) -> Name {
@@ -112,7 +114,7 @@ fn cases(max_n: usize) -> Vec<Case> {
                     };
                     let incls: Vec<bool> = if sec == Sec::Additional { vec![false, true] } else { vec![false] };
                     for incl in incls {
-                        v.push(Case { bytes: encode(&m, strat), sec, incl_opt: incl, tag: format!("sec={}{} opt={} n={} ptr={} long={}", sec_name(sec), if incl { "+opt" } else { "" }, optname, n, (strat != Strategy::Plain) as u8, long as u8) });
+                        v.push(Case { bytes: encode(&m, strat), sec, incl_opt: incl, prep: false, tag: format!("sec={}{} opt={} n={} ptr={} long={}", sec_name(sec), if incl { "+opt" } else { "" }, optname, n, (strat != Strategy::Plain) as u8, long as u8) });
                     }
                 }
             }
@@ -123,7 +125,11 @@ fn cases(max_n: usize) -> Vec<Case> {
         m.ns.push(name_rec(&ba, T_NS, 1, &sub(&ba)));
         m.ar.push(a_rec(&ba, 3, [3, 3, 3, 3]));
         m.ar.push(opt_variants()[1].clone());
-        v.push(Case { bytes: encode(&m, strat), sec: Sec::Question, incl_opt: false, tag: format!("sec=question opt=last n=1 ptr={}", (strat == Strategy::Max) as u8) });
+        v.push(Case { bytes: encode(&m, strat), sec: Sec::Question, incl_opt: false, prep: false, tag: format!("sec=question opt=last n=1 ptr={}", (strat == Strategy::Max) as u8) });
+        if strat == Strategy::Plain {
+            v.push(Case { bytes: encode(&m, strat), sec: Sec::Question, incl_opt: false, prep: true, tag: "sec=question opt=last n=1 ptr=0 memo=1".to_string() });
+            v.push(Case { bytes: encode(&m, strat), sec: Sec::Answer, incl_opt: false, prep: true, tag: "sec=answer opt=last n=1 ptr=0 memo=1".to_string() });
+        }
     }
     }
     // packets longer than 256 bytes with names at 256-aligned offsets (hand-assembled, see gen::aligned_pointer_packets)
@@ -131,7 +137,7 @@ fn cases(max_n: usize) -> Vec<Case> {
     for (i, tag) in [(4usize, "n256"), (5, "n256opt"), (13, "n512opt")] {
         for (sec, incl) in [(Sec::Answer, false), (Sec::Authority, false), (Sec::Additional, false), (Sec::Additional, true)] {
             let n = decode(&al[i]).unwrap().msg.sec(sec).len();
-            v.push(Case { bytes: al[i].clone(), sec, incl_opt: incl, tag: format!("sec={}{} opt={} n={} ptr=1 long=1 aligned={}", sec_name(sec), if incl { "+opt" } else { "" }, if i == 4 { "none" } else { "first" }, n, tag) });
+            v.push(Case { bytes: al[i].clone(), sec, incl_opt: incl, prep: false, tag: format!("sec={}{} opt={} n={} ptr=1 long=1 aligned={}", sec_name(sec), if incl { "+opt" } else { "" }, if i == 4 { "none" } else { "first" }, n, tag) });
         }
     }
     v
@@ -289,6 +295,10 @@ thread_local! {
 
 fn run_case(c: &Case, acts: &[Act]) -> Result<WalkResult, (String, String)> {
     let mut pp = crate::subj::parse(&c.bytes).map_err(|e| ("setup".to_string(), e))?;
+    if c.prep {
+        pp.recompute().map_err(|e| ("setup".to_string(), e.to_string()))?;
+        let _ = pp.question_raw0();
+    }
     let d0 = decode(&c.bytes).unwrap();
     let w = {
         let r = caught(|| match c.sec {
@@ -357,7 +367,7 @@ fn acts_str(a: &[Act]) -> String {
 
 fn explore(c: &Case, ci: usize, prefix: &mut Vec<Act>, maxlen: usize, ctx: &mut Ctx, rep: &mut Report) {
     if ctx.journaling() {
-        ctx.journal(|| json!({"input": hex(&c.bytes), "section": sec_name(c.sec), "incl_opt": c.incl_opt, "acts": acts_str(prefix)}));
+        ctx.journal(|| json!({"input": hex(&c.bytes), "section": sec_name(c.sec), "incl_opt": c.incl_opt, "prep": c.prep, "acts": acts_str(prefix)}));
     }
     rep.transitions += prefix.len() as u64 + 1;
     rep.evaluations += 1;
@@ -378,7 +388,7 @@ fn explore(c: &Case, ci: usize, prefix: &mut Vec<Act>, maxlen: usize, ctx: &mut 
                 rep.cap("time budget reached".into());
             }
         }
-        Err((sig, what)) => rep.violation(&sig, what, json!({"input": hex(&c.bytes), "section": sec_name(c.sec), "incl_opt": c.incl_opt, "acts": acts_str(prefix)})),
+        Err((sig, what)) => rep.violation(&sig, what, json!({"input": hex(&c.bytes), "section": sec_name(c.sec), "incl_opt": c.incl_opt, "prep": c.prep, "acts": acts_str(prefix)})),
     }
 }
 
@@ -421,6 +431,7 @@ fn replay(case: &Value) -> Result<String, String> {
         bytes: unhex(case["input"].as_str().unwrap_or("")),
         sec: crate::bfs_model::sec_from(case["section"].as_str().unwrap_or("")),
         incl_opt: case["incl_opt"].as_bool().unwrap_or(false),
+        prep: case["prep"].as_bool().unwrap_or(false),
         tag: String::new(),
     };
     let acts: Vec<Act> = case["acts"].as_str().unwrap_or("").chars().map(|ch| if ch == 'D' { Act::D } else { Act::N }).collect();
